@@ -11,7 +11,7 @@ import numpy as np
 from . import core, curves, seams
 from .core import digest_array, fhex, make_violation
 from .engine_curve import (COMPONENTS, RATERS, _caught, gen_fit_kw,
-                           gen_options, gen_pipeline)
+                           gen_options, gen_pipeline, prep_state)
 from .seams import PLAN
 
 PIPE = ["compute_tip_position", "correct_force_offset", "correct_tip_offset"]
@@ -429,10 +429,7 @@ class MapEngine:
                         for k in idx:
                             d = grp[k]
                             before = d.fit_properties.get("hash")
-                            prep_before = core.digest(
-                                [d.fit_properties.get("preprocessing"),
-                                 d.fit_properties.get(
-                                     "preprocessing_options")])
+                            prep_before = prep_state(d)
                             try:
                                 if op.get("prep", True):
                                     d.apply_preprocessing(list(PIPE))
@@ -460,9 +457,7 @@ class MapEngine:
                         k = op["curve"] % len(grp)
                         d = grp[k]
                         before = d.fit_properties.get("hash")
-                        prep_before = core.digest(
-                            [d.fit_properties.get("preprocessing"),
-                             d.fit_properties.get("preprocessing_options")])
+                        prep_before = prep_state(d)
                         try:
                             d.fit_properties[op["key"]] = copy.deepcopy(
                                 op["value"])
@@ -475,9 +470,7 @@ class MapEngine:
                         k = op["curve"] % len(grp)
                         d = grp[k]
                         before = d.fit_properties.get("hash")
-                        prep_before = core.digest(
-                            [d.fit_properties.get("preprocessing"),
-                             d.fit_properties.get("preprocessing_options")])
+                        prep_before = prep_state(d)
                         try:
                             d.apply_preprocessing(
                                 copy.deepcopy(op["steps"]),
@@ -585,9 +578,7 @@ class MapEngine:
     @staticmethod
     def after_change(d, r, hash_before, prep_before):
         """Reference bookkeeping for the rating of one curve."""
-        prep_after = core.digest([d.fit_properties.get("preprocessing"),
-                                  d.fit_properties.get(
-                                      "preprocessing_options")])
+        prep_after = prep_state(d)
         if prep_after != prep_before:
             # "since its last preprocessing change"
             r["rating"] = None
